@@ -17,6 +17,12 @@ PanicP(i) == ~(Len(Tr[i].skip) >= 5 /\ SubSeq(Tr[i].skip, 1, 5) = "PANIC")
 LoadOKP(i) == ~(Len(Tr[i].skip) >= 11 /\ SubSeq(Tr[i].skip, 1, 11) = "LOAD FAILED")
 QuietP(i) == Tr[i].fin => (St(i).net = <<>> /\ St(i).out = <<>> /\ St(i).infl.pc = "idle")
 
+\* C01: once in sync the node asks to be told about new tips by headers - on every connection (check() : sendheaders)
+SendHdrsP(j) == (Tr[j].act.a = "Check" /\ Tr[j].skip = "" /\ St(j).inSync) => St(j).sendhdrs
+\* C13: a block that sits unfilled in the download window has been asked for on this connection: its request or its answer is under way
+InFlightP(s) == \A i \in 1..Len(s.req) : s.req[i].f = 0 =>
+   \/ \E k \in 1..Len(s.out) : s.out[k].t = "gd" /\ s.out[k].b = s.req[i].b
+   \/ \E k \in 1..Len(s.net) : s.net[k].t = "blk" /\ s.net[k].b = s.req[i].b
 F(name, X) == {<<name, i>> : i \in X}
 Bad == F("Linked", {j \in Lines : ~LinkedP(St(j))})
   \cup F("NoDupChain", {j \in Lines : ~NoDupP(St(j))})
@@ -27,6 +33,8 @@ Bad == F("Linked", {j \in Lines : ~LinkedP(St(j))})
   \cup F("InSyncNotifyOK", {j \in Steps : ~NotifyP(St(j-1), St(j))})
   \cup F("AnnouncedContiguous", {j \in Steps : ~AnnP(St(j-1), St(j))})
   \cup F("Convergence", {j \in Lines : ~ConvP(j)})
+  \cup F("SendHeadersInSync", {j \in Steps : ~SendHdrsP(j)})
+  \cup F("RequestsInFlight", {j \in Lines : ~InFlightP(St(j))})
   \cup F("Quiescent", {j \in Lines : ~QuietP(j)})
   \cup F("NoPanic", {j \in Lines : ~PanicP(j)})
   \cup F("LoadOK", {j \in Lines : ~LoadOKP(j)})
